@@ -124,7 +124,7 @@ PROPS = {
     ),
     'C14': dict(
         level='exploration', verus=[], kani_quick=[], kani_thorough=[],
-        rac=['ignored_lints'],
+        rac=['ignored_lints', 'wasm_api'],
         unverified=[
             'BOUNDED ONLY, nothing proved: the contract of ignore_lint / is_ignored / remove_ignored rests on DefaultHasher over a derived Hash (collision-freedom cannot be a theorem), hashbrown and Vec::retain',
             'the language-server command and the harper-wasm export/import wrappers; edits other than inserting a paragraph before / appending one after the text',
@@ -134,10 +134,10 @@ PROPS = {
     'C04': dict(
         level='exploration',
         verus=['mask', 'mask_parser'], kani_quick=[], kani_thorough=[],
-        rac=['prose_offsets', 'lhs_prose_offsets'],
+        rac=['prose_offsets', 'lhs_prose_offsets', 'html_prose_offsets', 'typst_prose_offsets'],
         unverified=[
             'BOUNDED ONLY for the front-ends themselves: tree-sitter node selection + byte_spans_to_char_spans, the comment parsers (Unit / JsDoc / JavaDoc / Go), the Markdown byte/char bookkeeping wrap external parsers and are str-byte / split / closure code; PROVED are only the composition step parsers::Mask<M,P>::parse (tokens shifted into their chunk, in order, nothing outside the allowed spans emitted as text - given the Masker and inner-Parser contracts) and the mask operations push_allowed / merge_whitespace_sep',
-            'HTML, Typst, git-commit front-ends and the other 15 tree-sitter languages are not in the prose-offset checks (Typst has a crash-and-order check under C01)',
+            'the git-commit front-end and the other 15 tree-sitter languages are not in the prose-offset checks; for Typst only the declared prose words are demanded (strings handed to functions may or may not be prose), not exactness',
             'files beyond the segment grammar of the check (3 of <=14 segments per language)',
         ],
         assumptions=['the ground truth is known by construction of the generated files (segments with declared prose words), not from a second parser',
@@ -145,7 +145,7 @@ PROPS = {
     ),
     'C06': dict(
         level='exploration', verus=[], kani_quick=[], kani_thorough=[],
-        rac=['spell_check'],
+        rac=['spell_check', 'wasm_api'],
         unverified=[
             'BOUNDED ONLY, nothing proved: a statement about ~130k data-derived entries reached through 64-bit hash ids, hashbrown and an FST',
             'entries the plain-English lexer does not read as one Word token (hyphenated, dotted, with digits or apostrophes handled by condensing passes) are outside the check; dialects other than American and British; random sentence positions (one fixed carrier sentence); the quick tier visits every 4th entry per dialect, the thorough tier all',
@@ -182,7 +182,7 @@ PROPS = {
     ),
     'C19': dict(
         level='exploration', verus=[], kani_quick=[], kani_thorough=[],
-        rac=['stats_roundtrip'],
+        rac=['stats_roundtrip', 'wasm_api'],
         unverified=[
             'BOUNDED ONLY, nothing proved: the log format is serde_json (derived Serialize/Deserialize) + BufRead::lines, both external to Harper; Summary counts live in std HashMap',
             'the append-mode file handling in harper-ls save_stats and harper-wasm import_stats_file; misspelled-word tallies and final_config of the summary (not part of the property statement)',
